@@ -6,6 +6,7 @@ import (
 	"sort"
 	"strings"
 
+	dtpb "github.com/google/fhir/go/proto/google/fhir/proto/r4/core/datatypes_go_proto"
 	"github.com/verily-src/fhirpath-go/internal/fhir"
 	"github.com/verily-src/fhirpath-go/internal/slices"
 	"google.golang.org/protobuf/proto"
@@ -73,6 +74,10 @@ func ExtractAllWithPath[elementT proto.Message](resource fhir.Resource) ([]Eleme
 func extractAllImpl[elementT proto.Message](resource fhir.Resource, addPaths bool) ([]ElementWithPath[elementT], error) {
 	elements := []ElementWithPath[elementT]{}
 	err := protorange.Range(resource.ProtoReflect(), func(pv protopath.Values) error {
+		if isNoValueMarker(pv) {
+			// Not an element of the resource: skip it and everything in it.
+			return protorange.Break
+		}
 		element, found := getElementOfProtoPath[elementT](pv)
 		if found {
 			var fhirpath string
@@ -89,6 +94,25 @@ func extractAllImpl[elementT proto.Message](resource fhir.Resource, addPaths boo
 		return nil
 	})
 	return elements, err
+}
+
+// primitiveHasNoValueURL is the extension google/fhir adds to the proto of a
+// primitive that has extensions but no value. It is a storage artefact (always
+// the last extension of the primitive), not part of the FHIR resource.
+const primitiveHasNoValueURL = "https://g.co/fhir/StructureDefinition/primitiveHasNoValue"
+
+// isNoValueMarker reports whether pv ends at a primitiveHasNoValue extension.
+func isNoValueMarker(pv protopath.Values) bool {
+	last := pv.Index(-1)
+	if last.Step.Kind() != protopath.ListIndexStep {
+		return false
+	}
+	msg, ok := last.Value.Interface().(protoreflect.Message)
+	if !ok {
+		return false
+	}
+	ext, ok := msg.Interface().(*dtpb.Extension)
+	return ok && ext.GetUrl().GetValue() == primitiveHasNoValueURL
 }
 
 // getElementOfProtoPath returns FHIR element referenced by pv.
